@@ -39,18 +39,20 @@ CORPUS = [
 
 
 # ------------------------------------------------------------------ one project -> one judge case
-def relimit(rng, world):
+def relimit(rng, world, fixed=None):
     d = rng.choice([0, 1, 1, 2, 2, 3, 4, 10000])
     n = rng.choice([1, 2, 3, 4, 5, 6, 8, 10, 15, 1000000000, 1000000000])
+    if fixed:
+        d, n = fixed
     for e in world.ents.values():
         obj = e.get("obj")
-        if obj is not None and hasattr(obj, "meta") and rng.random() < 0.85:
+        if obj is not None and hasattr(obj, "meta") and (fixed or rng.random() < 0.85):
             obj.meta.graph_maxdepth = d
             obj.meta.graph_maxnodes = n
     return d, n
 
 
-def project_case(rng, files, st, nruns, project=None, intended=None):
+def project_case(rng, files, st, nruns, project=None, intended=None, limits=None):
     """parse, build the graphs nruns times under different limits; returns (term, info) or raises"""
     st = dict(st)
     show = bool(st.pop("show_proc_parent", False))
@@ -75,7 +77,7 @@ def project_case(rng, files, st, nruns, project=None, intended=None):
             if k == 0 and intended:
                 infos.append(intended_check(intended, recs, wk))
             if k + 1 < nruns:
-                relimit(rng, world)
+                relimit(rng, world, limits[k] if limits else None)
     labels, lbad = GI.label_table(runs)
     term = ("(" + wterm + ", " + GI.nats(regids) + ", " + GI.nats(nograph) + ", " + coq_bool(show) + ", " +
             labels + ", " + coq_list(coq_list(GI.graph_term(r) for r in recs) for recs in runs) + ")")
@@ -171,13 +173,13 @@ def handle(chk, cases, res):
                                                     "rngstate": meta.get("seed")}, False)
 
 
-def add_case(chk, cases, rng, files, st, nruns, tag, intended=None):
+def add_case(chk, cases, rng, files, st, nruns, tag, intended=None, limits=None):
     seed = rng.getrandbits(32)
     import random
     sub = random.Random(seed)
     key = hashlib.sha1(json.dumps([files, st], sort_keys=True, default=str).encode()).hexdigest()[:12]
     try:
-        term, summary, problems, runs = project_case(sub, files, st, nruns, intended=intended)
+        term, summary, problems, runs = project_case(sub, files, st, nruns, intended=intended, limits=limits)
     except Exception as e:  # FORD failed on a valid project: an output, not a harness crash
         chk.count((tag, key), nontrivial=False, sample={"files": sorted(files), "error": repr(e)[:300]})
         chk.violation("failing-input", {"what": "ford raised on a generated project", "error": repr(e)[:2000],
@@ -193,6 +195,35 @@ def add_case(chk, cases, rng, files, st, nruns, tag, intended=None):
     cases.append((term, dict(files=files, settings=st, summary=summary, nruns=nruns, seed=seed)))
 
 
+def exhaustive(chk, cases, rng, kprocs, kmods):
+    """every call relation (self loops included) on kprocs procedures of one module and every USE DAG on
+    kmods modules, each under every (graph_maxdepth, graph_maxnodes) of a small grid"""
+    import itertools
+    grid = [(d, n) for d in (0, 1, 2, 3) for n in (1, 2, 3, 1000000000)]
+    pairs = [(i, j) for i in range(kprocs) for j in range(kprocs)]
+    count = 0
+    for mask in range(2 ** len(pairs)):
+        body = []
+        for i in range(kprocs):
+            body.append(f"subroutine p{i}()")
+            body += [f"  call p{j}()" for b, (a, j) in enumerate(pairs) if a == i and mask >> b & 1]
+            body.append(f"end subroutine p{i}")
+        files = {"src/x.f90": "module m\ncontains\n" + "\n".join(body) + "\nend module m\n"}
+        add_case(chk, cases, rng, files, {}, len(grid) + 1, "exh-calls", limits=grid)
+        count += 1
+    mp = [(i, j) for i in range(kmods) for j in range(i)]
+    for mask in range(2 ** len(mp)):
+        files = {}
+        for i in range(kmods):
+            uses = "".join(f"  use m{j}\n" for b, (a, j) in enumerate(mp) if a == i and mask >> b & 1)
+            files[f"src/m{i}.f90"] = f"module m{i}\n{uses}end module m{i}\n"
+        add_case(chk, cases, rng, files, {}, len(grid) + 1, "exh-uses", limits=grid)
+        count += 1
+    chk.extra["exhaustive"] = (f"all {2 ** len(pairs)} call relations on {kprocs} procedures and all "
+                               f"{2 ** len(mp)} USE DAGs on {kmods} modules x {len(grid)} (depth, maxnodes) pairs")
+    return count
+
+
 def run(chk):
     chk.build(["theories/Corr/C13.vo", "theories/Props/C13.vo"])
     chk.props("theories/Props/C13.v", THEOREMS)
@@ -206,7 +237,8 @@ def run(chk):
         corpus.append((d["files"], d.get("settings", {})))
     for files, st in corpus:
         add_case(chk, cases, rng, files, st, 3, "corpus")
-    n = 70 if quick else 1500
+    exhaustive(chk, cases, rng, 2 if quick else 3, 3 if quick else 4)
+    n = 110 if quick else 1500
     for i in range(n):
         proj = GG.gen(rng, {"big": (not quick) and i % 10 == 0})
         add_case(chk, cases, rng, GG.render(proj), GG.settings(rng), 3 if quick else 4, "gen", GG.intended(proj))
@@ -343,7 +375,7 @@ def replay(chk, rep):
     for pbl in problems:
         print("python check:", pbl)
     res = chk.coq_judge(IMPORTS, CASE_T, "judge", [term])
-    print("judge code:", res)
+    print("judge code (bit0 model<>impl, bit1 property violated, >>2 known-region mask):", res)
     out = chk.coq_eval(IMPORTS, f"detail {term}")
     print("detail (run, graph, model-mismatch, unexplained, regions):", out[-3000:])
     m = re.findall(r"\((\d+), (\d+), (true|false), (true|false), (\d+)\)", out)
@@ -351,7 +383,9 @@ def replay(chk, rep):
         g = runs[int(r)][int(j)]
         print(f" run {r} graph {j}: {g['ident']} roots={g['roots']} lims={g['lims']} nodes={g['nodes']} "
               f"edges={[(t, h, d) for t, h, d, _ in g['edges']]} trunc={g['trunc']} hop={g['hop']}")
-    return 1 if (res or problems) else 0
+    if res is None:
+        return 1
+    return 1 if (any(c & 3 for c in res.values()) or problems) else 0
 
 
 def finish(chk):
